@@ -137,3 +137,61 @@ Definition honestb (log : list Z) (off : Z) (offs : list Z) : bool :=
   | [] => true
   | h :: _ => forallb (fun x => x <? off) (filter (fun x => x <? h) log) && is_prefix offs (filter (fun x => h <=? x) log)
   end.
+
+(* ---------- monitor PW: the processor-call window ----------
+   Reconstructs from what the harness observes - the plan oracle (EPlan), processor invocations (OCallProc), the
+   return of an API call made from inside the processor (ORet / ORaised), cancellations (OCancelProc) and the firing
+   of the Deferred a processor returned (EProcFire) - whether a processor result is pending and which offset was last
+   processed SUCCESSFULLY.  It rejects: a processor invocation while the previous one has not returned or its result
+   is pending (C02 no_overlap); an empty block; a commit request whose offset is not the last successfully processed
+   one (C03 commit_le_processed, first half); an end-of-step last_processed_offset that differs from it. *)
+Inductive pst := PIdle | PApi (l r : Z) | PPend (l : Z).      (* l = offset of the last message of the block *)
+Record gpw := mkPW { w_st : pst; w_plan : list (Z * Z); w_lp : option Z }.
+Definition pw0 : gpw := mkPW PIdle [] None.
+
+(* the processor call with result code r returned: 0 success, 2 a pending Deferred, anything else a failure *)
+Definition pw_finish (g : gpw) (l r : Z) : gpw :=
+  if r =? 2 then mkPW (PPend l) (w_plan g) (w_lp g)
+  else if r =? 0 then mkPW PIdle (w_plan g) (Some l)
+  else mkPW PIdle (w_plan g) (w_lp g).
+
+Definition pw_ev (g : gpw) (e : event) : gpw :=
+  match e with
+  | EPlan i r => mkPW (w_st g) (w_plan g ++ [(i, r)]) (w_lp g)
+  | EProcFire ok => match w_st g with
+                    | PPend l => mkPW PIdle (w_plan g) (if ok then Some l else w_lp g)
+                    | _ => g
+                    end
+  | _ => g
+  end.
+
+Definition pw_out (g : gpw) (o : output) : option gpw :=
+  match o with
+  | OCallProc blk =>
+    match w_st g, blk with
+    | PIdle, m0 :: _ =>
+      let p := match w_plan g with [] => (0, 2) | p :: _ => p end in
+      let g1 := mkPW PIdle (match w_plan g with [] => [] | _ :: r => r end) (w_lp g) in
+      let l := List.last blk m0 in
+      if (fst p =? 1) || (fst p =? 2) then Some (mkPW (PApi l (snd p)) (w_plan g1) (w_lp g1))   (* it calls stop()/commit() first *)
+      else Some (pw_finish g1 l (snd p))
+    | _, _ => None                       (* VIOLATION: invoked while not idle / with no messages *)
+    end
+  | ORet _ | ORaised _ => match w_st g with PApi l r => Some (pw_finish g l r) | _ => Some g end
+  | OCancelProc => match w_st g with
+                   | PPend _ => Some (mkPW PIdle (w_plan g) (w_lp g))
+                   | _ => None             (* VIOLATION: nothing pending to cancel *)
+                   end
+  | OCommit off _ => if oz_eqb off (w_lp g) then Some g else None      (* VIOLATION: commit ahead of / behind processing *)
+  | OEnd lp _ => if oz_eqb lp (w_lp g) then Some g else None
+  | _ => Some g
+  end.
+
+(* outside a processor call PW's state is a function of the model state; m = Some (l, r): inside the call window *)
+Definition pw_abs (m : option (Z * Z)) (s : state) : gpw :=
+  mkPW (match m with
+        | Some (l, r) => PApi l r
+        | None => match s_proc s with Some (l, _, _) => PPend l | None => PIdle end
+        end) (s_plan s) (s_lp s).
+(* stopping, stopped, or the start Deferred has fired: no block is handed to the processor in such a state *)
+Definition dead (s : state) : bool := s_stopping s || negb (startd_unfired s).
